@@ -302,8 +302,27 @@ def run(ctx):
                loc=mc.loc, detail='returns %s' % t[:80], path=p.describe() if not (srt or pre or emp) else None)
     for name in ('itervalues', 'iteritems', '__getitem__'):
         f = prog.func(CLS + '.' + name)
-        subs = [txt(n) for n in ast.walk(f.node) if isinstance(n, ast.Subscript) and txt(n).endswith('[0]')]
-        ctx.ob('T17.views', f.fq, 'view reads the count component of the entry', bool(subs), loc=f.loc, detail=str(subs))
+        # decided on values: what the view yields / returns (the last component of a pair) is slot 0 of an entry, however
+        # the entry was reached (map[k][0], `for count, _ in map.values()`, `for k, (count, _) in map.items()`)
+        wv, vpaths = paths_of(prog, f, recv=ci)
+        outs = []
+        for pv in vpaths:
+            for o in pv.ops:
+                if o.kind == 'yield' and o.val is not None:
+                    outs.append(wv.expand(o.val))
+            if pv.kind == 'return' and pv.outcome[1] is not None and name == '__getitem__':
+                outs.append(wv.expand(pv.outcome[1]))
+        comps = []
+        for e in outs:
+            if isinstance(e, ast.Tuple) and e.elts:
+                e = e.elts[-1]
+            comps.append(txt(e))
+        subs = sorted(set(comps))
+        ok = bool(subs) and all(c.endswith('[0]') for c in subs)
+        if not ok:
+            # generator expression form: fall back to the syntactic witness
+            ok = not outs and any(isinstance(n, ast.Subscript) and txt(n).endswith('[0]') for n in ast.walk(f.node))
+        ctx.ob('T17.views', f.fq, 'view reads the count component of the entry', ok, loc=f.loc, detail=str(subs)[:120])
     for name, via in (('items', 'iteritems'), ('values', 'itervalues'), ('keys', 'iterkeys'), ('elements', 'iteritems'),
                       ('most_common', 'iteritems'), ('get', '__getitem__')):
         f = prog.func(CLS + '.' + name)
